@@ -655,7 +655,9 @@ func init() {
 					for li, la := range opndLayouts {
 						for mi, mode := range modes {
 							n++
-							if tier == "quick" && (n+li+mi)%3 != 0 && !(dt == "float64" && (op == "Abs" || op == "Neg" || op == "Clamp")) {
+							// every operation has its own hand-written copy of the mode/iterator branching: float64 takes the full
+							// op x layout x mode matrix, the other dtypes a rotating third
+							if tier == "quick" && (n+li+mi)%3 != 0 && dt != "float64" {
 								continue
 							}
 							add(dt, op, []int{2, 3}, la, mode, []string{"C", "S"}[(li+mi)%2])
@@ -667,6 +669,14 @@ func init() {
 				for _, la := range opndLayouts {
 					for mi, mode := range []string{"", "unsafe", "reuse", "incr"} {
 						out = append(out, mkInst("vhC12Apply", map[string]interface{}{"dtype": dt, "shape": []int{2, 3}, "la": la, "mode": mode, "ld": []string{"C", "S"}[mi%2]}, "dtype", "la", "mode", "ld"))
+					}
+				}
+			}
+			// one-element tensors take a separate branch of the map dispatch
+			for _, dt := range []string{"float64", "float32", "int", "uint8", "int16", "int64", "complex128"} {
+				for _, sh1 := range [][]int{{}, {1}, {1, 1}} {
+					for _, mode := range []string{"", "unsafe"} {
+						out = append(out, mkInst("vhC12Apply", map[string]interface{}{"dtype": dt, "shape": sh1, "la": "C", "mode": mode, "ld": "C"}, "dtype", "shape", "la", "mode", "ld"))
 					}
 				}
 			}
